@@ -2096,8 +2096,14 @@ impl PeerConnection {
 
         #[cfg(rustrtc_verif)]
         self.inner.vprobe("loops.spawned");
+        // The guard is built here, not inside the future: a future that is dropped
+        // before its first poll (the connection task is aborted by Drop, or returns
+        // because close() won the race with start-up) never runs its body, and the
+        // JoinHandles it captured would be dropped - which detaches the loops
+        // instead of aborting them.
+        let guard = LoopsGuard(handles);
         Box::pin(async move {
-            let _guard = LoopsGuard(handles);
+            let _guard = guard;
             done.notified().await;
         })
     }
